@@ -60,7 +60,14 @@ pub fn giant_buffer_probe(ctx: &Ctx, rep: &mut Report, pid: &str, mask: u32, r: 
         if matches!(t, 6 | 8 | 12 | 14 | 17 | 25 | 26) {
             continue;
         }
-        for &bytes in &[(1usize << 28) + 1, (1 << 29), (1 << 29) + 1, (1 << 29) + 38, (1 << 29) + 53] {
+        if t == 9 && pid == "C16" {
+            // known finding F9 (type 9 communication state): judged by the exhaustive sweep of C16
+            continue;
+        }
+        // every byte count from 2^28 - 2 and 2^29 - 2 to + 70: the count of bits left at any field of
+        // any of these types wraps a 31- / 32-bit counter somewhere in the window
+        let sizes: Vec<usize> = ((1usize << 28) - 2..=(1 << 28) + 70).chain((1 << 29) - 2..=(1 << 29) + 70).collect();
+        for &bytes in &sizes {
             if !ctx.mine(item) {
                 item += 1;
                 continue;
